@@ -75,6 +75,17 @@ def run(chk):
                                lambda rng: scen_eager.gen_case(rng, chk.tier), n, keyfn=keyfn,
                                corpus=CORPUS if k == 0 else None, escalate_n=1500)
         _distribution(dist, results)
+        if k == 0:
+            # how often the closed-form comparison was decisive (the driver skips groupings with a tie)
+            lines = []
+            for i, (case, res) in enumerate(results[:6000]):
+                lines += scen_eager.model_lines(i, case, res)
+            cf = {}
+            for l in core.run_driver('eager', lines):
+                if l.startswith('ok ') and ' cf=' in l:
+                    v = l.rsplit(' cf=', 1)[1]
+                    cf[v] = cf.get(v, 0) + 1
+            dist['closed_form_on_first_6000'] = cf
         del results
         if chk.violations or chk.corr_breaks:
             break
